@@ -70,7 +70,8 @@ def build_agent(sc, events, proto):
     if sc.get("err"):
         # scripted error-status reply to the k-th request (C08: walk-style operations propagate it)
         k, es, ei = sc["err"]["at"], sc["err"]["es"], sc["err"]["ei"]
-        ag.script = lambda req: dict(es=es, ei=ei, vbs=[(o, NULL) for o, _, _ in req["vbs"]]) if ag.nreq == k + ag.ndisco else None
+        idd = sc["err"].get("iddelta", 0)       # C07: an error response that carries another request-id is not this request's answer
+        ag.script = lambda req: dict(es=es, ei=ei, iddelta=idd, vbs=[(o, NULL) for o, _, _ in req["vbs"]]) if ag.nreq == k + ag.ndisco else None
     return ag
 
 
@@ -98,6 +99,9 @@ async def run_scenario(sc):
     sroots = [oidstr(conc(r)) for r in sc["roots"]]
     bulk = sc.get("bulk", 0)
     errors = sc.get("errors", "strict")
+    if api == "multiwalk_fetcher" and not hasattr(c, "_bulkwalk_fetcher"):
+        errors = "strict"
+        sc = dict(sc, errors="strict")
     events.append(dict(e="call", api=api, roots=sc["roots"], bulk=bulk, errors=errors))
     try:
         it = None
@@ -108,6 +112,10 @@ async def run_scenario(sc):
             it = c.multiwalk(roots, errors=errors)
         elif api == "bulkwalk":
             it = c.bulkwalk(roots, bulk_size=bulk)
+        elif api == "multiwalk_fetcher":
+            # the GETBULK fetcher handed to multiwalk by the caller: the only way to a lenient bulk walk
+            mk = getattr(c, "_bulkwalk_fetcher", None)
+            it = c.multiwalk(roots, fetcher=mk(bulk), errors=errors) if mk is not None else c.bulkwalk(roots, bulk_size=bulk)
         elif api == "py.walk":
             it = PyWrapper(c).walk(sroots[0], errors=errors)
         elif api == "py.multiwalk":
